@@ -369,7 +369,7 @@ def plan_C03(ctx):
     run_family(ctx, "merge_obs", n_of(ctx, 250, 5000), perfile=n_of(ctx, 20, 40), seed_off=3)
     run_family(ctx, "assoc", n_of(ctx, 40, 600), perfile=10, seed_off=4)
     run_family(ctx, "mass_delete", n_of(ctx, 5, 60), perfile=1, seed_off=2)
-    run_family(ctx, "fault_merge", n_of(ctx, 64, 512), perfile=16)               # one read of a file-backed input fails while the merge runs
+    run_family(ctx, "fault_merge", n_of(ctx, 64, 256), perfile=16)               # one read of a file-backed input fails while the merge runs
     run_family(ctx, "merge_chain", n_of(ctx, 20, 300), perfile=10, seed_off=2)
     run_family(ctx, "card_boundary", n_of(ctx, 6, 24), perfile=1, seed_off=4)      # live cardinality on a chunk-size step, deleted 1-hit inputs
     run_family(ctx, "dv_walk", n_of(ctx, 8, 100), perfile=2, seed_off=5)           # a >1024-document input with doc-value chunk gaps as the SECOND input
@@ -513,7 +513,9 @@ def plan_C11(ctx):
 
 def plan_C12(ctx):
     e1_writer_faults(ctx)
-    run_family(ctx, "faults_w", n_of(ctx, 6, 150), perfile=n_of(ctx, 1, 3))
+    # (one executor process per 40 scenarios: a scenario enumerates every fault offset x mode x buffer size and takes ~8 s)
+    for part in range(1 if ctx.quick else 3):
+        run_family(ctx, "faults_w", n_of(ctx, 6, 40), perfile=n_of(ctx, 1, 2), seed_off=20 * part)
     run_family(ctx, "faults_big", n_of(ctx, 2, 16), perfile=1, seed_off=1)
     require_cov(ctx, "wfault_fail", "wfault_close", "wfault_nil_close")
 
